@@ -125,6 +125,15 @@ func (p *PackageInfo) validate() error {
 	return errorSink.AsError()
 }
 
+// An error in the package manifest, located at the given node
+func manifestError(node *yaml.Node, message string) validation.ValidationError {
+	return validation.ValidationError{
+		Message: errors.New(message),
+		Line:    &node.Line,
+		Column:  &node.Column,
+	}
+}
+
 type Import struct {
 	Url     string
 	Package *PackageInfo
@@ -135,12 +144,12 @@ func (imports *Imports) UnmarshalYAML(value *yaml.Node) error {
 	unpacked := []*Import(*imports)
 
 	if value.Tag != "!!seq" {
-		return fmt.Errorf("expected import sequence")
+		return manifestError(value, "expected import sequence")
 	}
 
 	for _, item := range value.Content {
 		if item.Tag != "!!str" {
-			return fmt.Errorf("expected import url to be a string")
+			return manifestError(item, "expected import url to be a string")
 		}
 
 		unpacked = append(unpacked, &Import{Url: item.Value})
@@ -162,17 +171,17 @@ func (versions *Versions) UnmarshalYAML(value *yaml.Node) error {
 	unpacked := []*Version(*versions)
 
 	if value.Tag != "!!map" {
-		return fmt.Errorf("expected versions map")
+		return manifestError(value, "expected versions map")
 	}
 
 	for i := 0; i < len(value.Content); i += 2 {
 		verKey := value.Content[i]
 		verValue := value.Content[i+1]
 		if verKey.Tag != "!!str" {
-			return fmt.Errorf("expected version label to be a string")
+			return manifestError(verKey, "expected version label to be a string")
 		}
 		if verValue.Tag != "!!str" {
-			return fmt.Errorf("expected version url to be a string")
+			return manifestError(verValue, "expected version url to be a string")
 		}
 
 		unpacked = append(unpacked, &Version{Label: verKey.Value, Url: verValue.Value})
